@@ -7,6 +7,7 @@ package main
 
 import (
 	"context"
+	"sync"
 	"encoding/json"
 	"fmt"
 	"os"
@@ -48,13 +49,32 @@ type Scenario struct {
 	Steps   []Step      `json:"steps"`
 }
 
+// nodeReg maps node ids to nodes; read by parked task goroutines, written by the driver
+type nodeReg struct {
+	mu sync.RWMutex
+	m  map[uint64]*implchord.LocalNode
+}
+
+func newReg() *nodeReg { return &nodeReg{m: map[uint64]*implchord.LocalNode{}} }
+func (r *nodeReg) put(n *implchord.LocalNode) {
+	r.mu.Lock()
+	r.m[n.ID()] = n
+	r.mu.Unlock()
+}
+func (r *nodeReg) get(id uint64) (*implchord.LocalNode, bool) {
+	r.mu.RLock()
+	n, ok := r.m[id]
+	r.mu.RUnlock()
+	return n, ok
+}
+
 type runner struct {
 	si    int
 	sc    Scenario
 	r     *ring.Ring
 	sched *verifkit.Sched
 	ops   map[string]*verifkit.Op
-	byID  map[uint64]*implchord.LocalNode
+	byID  *nodeReg
 	never chan struct{}
 }
 
@@ -87,7 +107,7 @@ func (x *runner) startOp(st Step) func() any {
 	switch st.Kind {
 	case "join":
 		n, via := x.r.Node(st.N), x.r.Node(st.Via)
-		x.byID[n.ID()] = n
+		x.byID.put(n)
 		return func() any { return ring.ErrClass(n.Join(via)) }
 	case "leave":
 		n := x.r.Node(st.N)
@@ -172,7 +192,7 @@ func (x *runner) run() {
 	x.r = ring.Build(x.sc.Layout, verifkit.Seed()+int64(x.si)*131, x.sc.Variant, logger)
 	x.sched = verifkit.NewSched()
 	x.ops = map[string]*verifkit.Op{}
-	x.byID = map[uint64]*implchord.LocalNode{}
+	x.byID = newReg()
 	x.never = make(chan struct{})
 	gates := x.sc.Gates
 	x.sched.Gates = func(p string) bool {
@@ -184,7 +204,7 @@ func (x *runner) run() {
 		return false
 	}
 	x.sched.TaskStop = func(id uint64) <-chan struct{} {
-		if n, ok := x.byID[id]; ok {
+		if n, ok := x.byID.get(id); ok {
 			return n.VerifStopCh()
 		}
 		return x.never
@@ -197,12 +217,16 @@ func (x *runner) run() {
 	for name, id := range x.r.KeyID {
 		keys[name] = x.r.Rank[id]
 	}
-	verifkit.Emit(map[string]any{"t": "begin", "s": x.si, "name": x.sc.Name, "M": len(x.sc.Layout), "nodes": nodes, "keys": keys})
+	realIDs := map[string]string{}
+	for name, id := range x.r.NodeID {
+		realIDs[name] = strconv.FormatUint(id, 10)
+	}
+	verifkit.Emit(map[string]any{"t": "begin", "s": x.si, "name": x.sc.Name, "M": len(x.sc.Layout), "nodes": nodes, "keys": keys, "ids": realIDs})
 	for i, st := range x.sc.Steps {
 		switch st.Do {
 		case "create":
 			n := x.r.Node(st.N)
-			x.byID[n.ID()] = n
+			x.byID.put(n)
 			err := n.Create()
 			x.emit(i, st, "", "", ring.ErrClass(err))
 		case "start":
@@ -270,6 +294,90 @@ func (x *runner) run() {
 	verifhook.AtFn = nil
 }
 
+// ringtable: build a ring from explicit ids by sequential joins, settle it to a maintenance fixpoint with the real
+// stabilize / checkPredecessor / fixFinger, then answer FindSuccessor for every (node, key) pair (C01).
+type tableCase struct {
+	IDs   []string `json:"ids"`
+	Keys  []string `json:"keys"`
+	Order int64    `json:"order"`
+}
+
+func ringTable(i int, c tableCase) map[string]any {
+	sched := verifkit.NewSched()
+	never := make(chan struct{})
+	byID := newReg()
+	sched.TaskStop = func(id uint64) <-chan struct{} {
+		if n, ok := byID.get(id); ok {
+			return n.VerifStopCh()
+		}
+		return never
+	}
+	verifhook.AtFn = sched.At
+	defer func() { verifhook.AtFn = nil }()
+	layout := make([]ring.Item, len(c.IDs))
+	ids := make([]uint64, len(c.IDs))
+	for k, sid := range c.IDs {
+		v, _ := strconv.ParseUint(sid, 10, 64)
+		ids[k] = v
+		layout[k] = ring.Item{N: strconv.Itoa(k), ID: v, Zero: v == 0}
+	}
+	r := ring.Build(layout, verifkit.Seed(), 0, zap.NewNop())
+	rnd := verifkit.Rand(c.Order)
+	order := rnd.Perm(len(ids))
+	nodes := []*implchord.LocalNode{}
+	settle := func() bool {
+		for rd := 0; rd < 40; rd++ {
+			before := r.Snapshot(true, false)
+			for _, n := range nodes {
+				n.VerifStabilize()
+				n.VerifCheckPred()
+				n.VerifFixFinger()
+			}
+			if reflect.DeepEqual(before, r.Snapshot(true, false)) {
+				return true
+			}
+		}
+		return false
+	}
+	for k, oi := range order {
+		n := r.Node(strconv.Itoa(oi))
+		byID.put(n)
+		if k == 0 {
+			if err := n.Create(); err != nil {
+				return map[string]any{"err": "create: " + err.Error()}
+			}
+		} else {
+			via := nodes[rnd.Intn(len(nodes))]
+			if err := n.Join(via); err != nil {
+				return map[string]any{"err": "join: " + ring.ErrClass(err)}
+			}
+		}
+		nodes = append(nodes, n)
+		settle()
+	}
+	stable := settle()
+	out := map[string]any{"stable": stable}
+	var lk [][]any
+	for _, n := range nodes {
+		from := r.Rank[n.ID()]
+		for ki, sk := range c.Keys {
+			key, _ := strconv.ParseUint(sk, 10, 64)
+			v, err := n.FindSuccessor(key)
+			if err != nil {
+				lk = append(lk, []any{from, ki, -1, ring.ErrClass(err)})
+			} else {
+				lk = append(lk, []any{from, ki, r.Rank[v.ID()], "ok"})
+			}
+		}
+	}
+	out["lookups"] = lk
+	out["state"] = r.Snapshot(true, false)
+	for _, n := range nodes {
+		go n.Leave()
+	}
+	return out
+}
+
 func main() {
 	mode := "script"
 	if len(os.Args) > 1 {
@@ -283,6 +391,15 @@ func main() {
 			if p := verifkit.Recover(x.run); p != "" {
 				verifkit.Emit(map[string]any{"t": "panic", "s": i, "msg": p})
 			}
+		})
+	case "ringtable":
+		verifkit.EachCase(func(i int, raw json.RawMessage) {
+			c := verifkit.Decode[tableCase](raw)
+			var res map[string]any
+			if p := verifkit.Recover(func() { res = ringTable(i, c) }); p != "" {
+				res = map[string]any{"err": "panic: " + p}
+			}
+			verifkit.Answer(i, res)
 		})
 	default:
 		fmt.Fprintln(os.Stderr, "unknown mode", mode)
